@@ -481,6 +481,9 @@ def run(chk, facts, info):
     rule_r4(chk, facts, P)
     rule_r6(chk, facts, P)
     rule_r7(chk, facts, P)
+    # code that is built from bytes nobody wrote differs from run to run (C14-R11, claimed here for determinism)
+    from . import c14_insert
+    c14_insert.run(chk, facts, rule='C17-R8')
     chk.note('Decided: non-interference of report-only options with code-affecting state (per read site), confinement '
              'of the dual-use formatting options, reviewed sites of clock/environment reads, single option decoder. Not '
              'decided: listing/MAP text reproducibility, locale-dependent folding of non-ASCII letters, -A tree shape.')
